@@ -3101,23 +3101,41 @@ class StridedInterval:
             ret = self
 
         else:
-            new_stride = math.gcd(self.stride, b.stride)
-            lower = (
-                StridedInterval.lower(self.bits, self.lower_bound, new_stride)
-                if b.lower_bound < self.lower_bound
-                else self.lower_bound
-            )
-            upper = (
-                StridedInterval.upper(self.bits, self.upper_bound, new_stride)
-                if b.upper_bound > self.upper_bound
-                else self.upper_bound
-            )
-            if new_stride == 0:
-                if self.is_integer and b.is_integer:
-                    ret = StridedInterval(bits=self.bits, stride=1, lower_bound=lower, upper_bound=upper)
-                else:
-                    raise ClaripyOperationError("SI: operands are not reduced.")
+            wraps = self.lower_bound > self.upper_bound or b.lower_bound > b.upper_bound
+            # every value of both operands is a multiple of the new stride away from self.lower_bound
+            if wraps:
+                distance = self._modular_sub(b.lower_bound, self.lower_bound, self.bits)
             else:
+                distance = abs(b.lower_bound - self.lower_bound)
+            new_stride = math.gcd(self.stride, b.stride, distance)
+            widen_lower = b.lower_bound < self.lower_bound
+            widen_upper = b.upper_bound > self.upper_bound
+
+            if new_stride == 0:
+                # the same integer
+                ret = self.copy()
+            elif wraps and b._is_surrounded(self):
+                ret = StridedInterval(
+                    bits=self.bits, stride=new_stride, lower_bound=self.lower_bound, upper_bound=self.upper_bound
+                )
+            elif (
+                wraps
+                or (widen_lower and widen_upper)
+                or (widen_lower and self.upper_bound > self.signed_max_int(self.bits))
+            ):
+                # The bounds are of no use any more: keep what is known about the low bits
+                if wraps:
+                    new_stride = math.gcd(new_stride, 2**self.bits)
+                lower = self.lower_bound % new_stride
+                upper = StridedInterval.upper(self.bits, lower, new_stride)
+                ret = StridedInterval(bits=self.bits, stride=new_stride, lower_bound=lower, upper_bound=upper)
+            else:
+                lower = (
+                    StridedInterval.lower(self.bits, self.lower_bound, new_stride) if widen_lower else self.lower_bound
+                )
+                upper = (
+                    StridedInterval.upper(self.bits, self.upper_bound, new_stride) if widen_upper else self.upper_bound
+                )
                 ret = StridedInterval(bits=self.bits, stride=new_stride, lower_bound=lower, upper_bound=upper)
 
         ret.normalize()
